@@ -161,6 +161,15 @@ type skipEvent struct {
 	K   int    `json:"k"`
 }
 
+type restoreEvent struct {
+	E      string              `json:"e"`
+	Run    string              `json:"run"`
+	K      int                 `json:"k"`
+	Log    string              `json:"log"`
+	Cls    string              `json:"cls"`
+	Stored map[string]world.CP `json:"stored"`
+}
+
 type resetEvent struct {
 	E     string `json:"e"`
 	Run   string `json:"run"`
@@ -391,6 +400,54 @@ func execPhase(base *world.World, tag string, phase int, steps []seqStep, storeK
 			s.Op, s.Req = "update", &rq
 		}
 		switch s.Op {
+		case "restore":
+			// the stored checkpoint of a log is replaced by the SAME checkpoint as an earlier incarnation of this witness would have left it:
+			//   future3s / future1h : cosigned when the wall clock was that far ahead (clock corrected since: NTP step, VM restore)
+			//   legacyonly          : cosigned before the cosignature/v1 key was added to the signer set (only the legacy witness line)
+			// Same text, same log signature, valid witness signatures; written through the persistence layer. The abstract state is unchanged.
+			events = append(events, skipEvent{E: "skip", Run: tag, K: k})
+			l, ok := w.Logs[s.Log]
+			raw, has := pre.raw[s.Log]
+			if !ok || !has || fl != nil {
+				continue
+			}
+			n, err := ref.ParseNote(raw)
+			if err != nil {
+				continue
+			}
+			out := n.Text + "\n"
+			for _, sg := range n.Sigs {
+				if sg.Name != w.WitKey.Name {
+					out += sg.Line
+				}
+			}
+			out += w.WitKey.SignLegacy(n.Text)
+			switch s.Cls {
+			case "future3s":
+				out += w.WitKey.SignCosigV1(n.Text, uint64(time.Now().Unix())+3)
+			case "future1h":
+				out += w.WitKey.SignCosigV1(n.Text, uint64(time.Now().Unix())+3600)
+			case "legacyonly":
+			default:
+				return nil, fmt.Errorf("unknown restore class %q", s.Cls)
+			}
+			wr, err := st.p.WriteOps(l.ID)
+			if err != nil {
+				return nil, err
+			}
+			if _, err := wr.GetLatest(); err != nil {
+				wr.Close()
+				return nil, err
+			}
+			if err := wr.Set([]byte(out)); err != nil {
+				wr.Close()
+				return nil, err
+			}
+			wr.Close()
+			pre = takeSnapshot(w, st.p)
+			// (the skip event appended above stands for a restore that could not be done; this one tells the judge what is stored now)
+			events[len(events)-1] = restoreEvent{E: "restore", Run: tag, K: k, Log: s.Log, Cls: s.Cls, Stored: project(w, pre)}
+			continue
 		case "migrate":
 			// the file the witness runs on is replaced by one with the same content written the way the RELEASE under verification writes it
 			// (schema and parameter binding of internal/persistence/sql at the pinned commit), and the witness is restarted on it: an
